@@ -385,20 +385,69 @@ func c35RankNode(r *core.Report, p *core.Prog) {
 	const rule = "C35.rank-node"
 	n := 0
 	ord := map[string]int{}
+	// wrappers: functions that hand one of their own parameters on as the ranked node
+	// (IsRoundGenerator today); found by fixpoint, matched at interface calls by method name
+	wrappers := map[*ssa.Function]int{}
+	wrapperNames := map[string]int{}
 	isRankCall := func(c *ssa.CallCommon) (argIdx int, ok bool) {
 		name := core.CalleeName(c)
 		off := 0
 		if !c.IsInvoke() {
 			off = 1 // receiver is Args[0]
 		}
-		switch {
-		case strings.HasSuffix(name, ").GetMinerRank"):
+		if strings.HasSuffix(name, ").GetMinerRank") {
 			return off, true
-		case strings.HasSuffix(name, ").IsRoundGenerator"):
-			return off + 1, true
+		}
+		if c.IsInvoke() {
+			if i, ok := wrapperNames[c.Method.Name()]; ok {
+				return i, true
+			}
+			return 0, false
+		}
+		if f := core.StaticCallee(c); f != nil {
+			if i, ok := wrappers[f]; ok {
+				return i, true
+			}
 		}
 		return 0, false
 	}
+	for iter := 0; iter < 3; iter++ {
+		grew := false
+		for _, fn := range p.ModFuncs() {
+			if fn.Pkg.Pkg.Path() == pkgNode || fn.Parent() != nil {
+				continue
+			}
+			if _, done := wrappers[fn]; done {
+				continue
+			}
+			for _, cs := range core.CallsIn(fn, false, func(c *ssa.CallCommon) bool { _, ok := isRankCall(c); return ok }) {
+				cc := cs.Instr.(ssa.CallInstruction).Common()
+				idx, _ := isRankCall(cc)
+				if idx >= len(cc.Args) {
+					continue
+				}
+				for _, rt := range core.Slice(cc.Args[idx]) {
+					if prm, ok := rt.V.(*ssa.Parameter); ok && rt.Kind == "param" {
+						for i, q := range fn.Params {
+							if q == prm {
+								wrappers[fn] = i
+								mi := i
+								if fn.Signature.Recv() != nil {
+									mi = i - 1 // interface calls carry no receiver argument
+								}
+								wrapperNames[fn.Name()] = mi
+								grew = true
+							}
+						}
+					}
+				}
+			}
+		}
+		if !grew {
+			break
+		}
+	}
+	r.Info["rank_wrappers"] = len(wrappers)
 	for _, fn := range p.ModFuncs() {
 		if fn.Pkg.Pkg.Path() == pkgNode {
 			continue
